@@ -128,6 +128,13 @@ func main() {
 			}
 			return
 		}
+		for _, b := range f.Blocks {
+			if iff, ok := b.Instrs[len(b.Instrs)-1].(*ssa.If); ok {
+				for i := range b.Succs {
+					fmt.Printf("edge %d→%d: %s\n", b.Index, b.Succs[i].Index, strings.Join(edgeFacts(iff, i), "; "))
+				}
+			}
+		}
 		fmt.Println("call keys:")
 		for _, k := range callKeys(f, true) {
 			fmt.Println("  ", k)
